@@ -8,6 +8,11 @@ class C12(MCMCProp):
             "edge created by an accepted swap is checked against the target of its topology; the Metropolis decision of every proposal is "
             "recomputed exactly in the model with the injected uniform draw; non-trivial = at least one accepted swap; distinct = distinct case")
 
+    # C12 is about what the target forbids: mostly targets with deleted / zeroed pairings, mostly several topologies
+    modes = ["sparse", "sparse", "sparse", "zeros", "full"]
+    min_topologies = 2
+    budgets = {"quick": 30, "thorough": 400}
+
     def oracle(self, case, obs):
         return self.clauses_c12(case, obs)
 
